@@ -302,6 +302,11 @@ def c01(tier):
             for cache, lock in ((None, None), (False, 2)):
                 scen_steps.append(rl.Scenario("head-" + hs, {"f1.rs": [S(11, ref=1), S(12, ref=7), S(13, ref=3)], "f2.rs": [S(21), S(22)]},
                                               lock=lock, use_cache=cache, structured=structured, head_style=hs))
+    # literals with quote characters / a trailing backslash in front of the statements that carry the existing IDs
+    for structured in (False, True):
+        for cache, lock in ((None, None), (False, 2)):
+            scen_steps.append(rl.Scenario("literal-prelude", {"f1.rs": [S(11, ref=1), S(12, ref=7), S(13, ref=3)], "f2.rs": [S(21), S(22)]},
+                                          lock=lock, use_cache=cache, structured=structured, literal_prelude=True))
     # where the files are and how the macros are configured: existing IDs below directories a tool might want to skip
     # (target, hidden, deep), and macro names configured under two modules with statements qualified either way
     for structured in (False, True):
@@ -405,6 +410,13 @@ def c02(tier):
         K, n = rl.sweep(binary, sc, "edit", kinds, batch, v, follow="c02",
                         pre_steps=[("edit", ""), ("devfn", "delete_highest_and_add", 7)])
         log("[sweep] %s (second run of a history): %d operations, %d histories" % (sc.name, K, n))
+    # an in-scope file (whichever position the directory order gives it) holds a token whose number does not fit the ID type
+    over = {"src/aa_over.rs": 'fn a() { info!("[ref: 9999999999] over the range"); }\n',
+            "src/zz_over.rs": 'fn z() { info!("[ref: 4294967296] just over"); }\n'}
+    for lock in (None, 10):
+        sc = rl.Scenario("over-range-token", {"f1.rs": [S(11), S(12, ref=3)], "f2.rs": [S(21), S(22)], "mm.rs": [S(31)]},
+                         lock=lock, extra_files=over)
+        rl.planned_runs(binary, sc, [[("edit", "")]], batch, v, follow="c02", sigbase={"over_range_token": True})
     # a later run of a history (after the highest-numbered statement was deleted) cannot examine / open / read the lock
     for structured in (False, True):
         sc = rl.Scenario("lock-unreadable-later", {"f1.rs": [S(11), S(12)], "f2.rs": [S(21)]}, lock=None, structured=structured)
@@ -451,6 +463,14 @@ def c04(tier):
         for tree in ({"f1.rs": [S(11), S(12, ref=3)]}, {"f1.rs": [S(11, ref=1)]}):
             sc = rl.Scenario("tmpdir-missing", tree, lock=5, structured=structured, tmp_missing=True, extra_files=EXTRA)
             rl.planned_runs(binary, sc, [[("check", "")]], batch, v, sigbase={"tmp_missing": True})
+    # the process environment: variables by which CI systems name files a tool may write to, and a standard output that
+    # cannot be written (full device, reader gone) - whatever that does to the run, nothing may be created or changed
+    for structured in (False, True):
+        for tree in ({"f1.rs": [S(11), S(12, ref=3)], "f2.rs": [S(21)]}, {"f1.rs": [S(11, ref=1)], "f2.rs": [S(21, ref=2)]}):
+            for kw in ({"ci_env": True}, {"stdout_to": "full"}, {"stdout_to": "closed-pipe"}, {"ci_env": True, "stdout_to": "full"}):
+                sc = rl.Scenario("env-" + "-".join("%s" % v1 for v1 in kw.values()), tree, lock=5, structured=structured,
+                                 extra_files=EXTRA, **kw)
+                rl.planned_runs(binary, sc, [[("check", "")]], batch, v, sigbase={k: str(v1) for k, v1 in kw.items()})
     env_step(v, binary, batch, tier, mode="check")
     kinds = ["EIO", "EACCES", "TERM", "INT", "kill_after"] if tier == "thorough" else ["EIO", "TERM", "kill_after"]
     for structured in (False, True):
